@@ -41,7 +41,7 @@ def run(ctx):
             "sess:drop-after-k", "sess:drop-mid-message", "sess:reconnected", "sess:stable", "sess:closed", "sess:messages",
             "sess:close-in-backoff-refusals", "sess:set-right-after-drop", "sess:cap-flip-on-off", "sess:cap-flip-off-on",
             "sess:capflip-ebgp-updates-after-flip", "sess:ebgp-updates-with-connection-width",
-            "sess:hold=0", "sess:hold=nil", "sess:pipe-fault-reconnect", "sess:write-failure-at-the-withdraw", "sess:set-of-advertised-after-other-request", "sess:invalid-set-while-request-pending", "sess:open-after-reconnect-checked", "step:Set-of-advertised-while-pending", "sess:mass-withdraw", "sess:source-address-16-byte-form", "sess:source-address-4-byte-form", "sess:router-id-derived", "sess:keepalive-schedule-keepalives", "sess:failed-attempt-after-a-success", "step:backoff", "step:readerdrop", "step:keepalive", "sess:close-in-handshake", "sess:set-during-write", "sess:set-during-write-messages", "step:abort", "step:abort-with-pending", "step:Set", "step:Set(invalid)", "step:Close"]
+            "sess:hold=0", "sess:hold=nil", "sess:asn-field-and-capability-disagree", "sess:pipe-fault-reconnect", "sess:write-failure-at-the-withdraw", "sess:set-of-advertised-after-other-request", "sess:invalid-set-while-request-pending", "sess:open-after-reconnect-checked", "step:Set-of-advertised-while-pending", "sess:mass-withdraw", "sess:source-address-16-byte-form", "sess:source-address-4-byte-form", "sess:router-id-derived", "sess:keepalive-schedule-keepalives", "sess:failed-attempt-after-a-success", "step:backoff", "step:readerdrop", "step:keepalive", "sess:close-in-handshake", "sess:set-during-write", "sess:set-during-write-messages", "step:abort", "step:abort-with-pending", "step:Set", "step:Set(invalid)", "step:Close"]
     if not thorough:
         need = [k for k in need if k not in ("sess:closed",)] + []
     # white-box comparisons are skipped (not failed) when the session's unexported
